@@ -87,7 +87,7 @@ fn main() {
         }
         "single" => {
             // one call in a fresh process (canonical reference for the history-independence clause)
-            let c: PtCase = serde_json::from_str(&args[2]).expect("case json");
+            let c: PtCase = serde_json::from_str::<PtCase>(&args[2]).map(PtCase::fix).expect("case json");
             println!("RESULT {}", serde_json::to_string(&c.run()).unwrap());
             0
         }
